@@ -29,7 +29,9 @@ WORKERS = {"quick": 8, "thorough": 16}
 BUDGET = {"quick": 60, "thorough": 1200}
 EXHAUSTIVE = {"quick": False, "thorough": True}
 N_FRAMES = 6
-FMTS = ["h5", "xtc", "xtc9", "trr", "dcd", "nc", "mdcrd", "xyz", "xyz.gz", "lammpstrj", "dtr", "arc"]
+FMTS = ["h5", "xtc", "xtc9", "trr", "dcd", "dcd0", "dcd4", "nc", "mdcrd", "mdcrd-nobox", "xyz", "xyz.gz", "lammpstrj", "dtr", "arc"]
+# dcd0 = DCD whose header frame count was never patched (0); dcd4 = CHARMM 4-dimensional DCD (see vlib/gen/files.py);
+# mdcrd-nobox = MDCRD without box lines (the default files carry a cell)
 # gro is not seekable (seek raises NotImplementedError) and is not in the property's list: not judged here.
 ALPHABET = [("read", 1), ("read", 2), ("read", 3), ("readall", None), ("seek", 0), ("seek", 2), ("seek", 5),
             ("rseek", 1), ("rseek", -1), ("tell", None), ("len", None)]
@@ -130,11 +132,16 @@ def _file_for(fmt):
         if os.environ.get("VERIF_REPO"):
             path = os.path.join(os.environ["VERIF_REPO"], "tests/data/4waters.arc")
     else:
-        ext = "xtc" if fmt == "xtc9" else fmt
+        ext = {"xtc9": "xtc", "dcd0": "dcd", "dcd4": "dcd", "mdcrd-nobox": "mdcrd"}.get(fmt, fmt)
         na = 6 if fmt in ("xtc9",) else 12
-        t = files.ident_traj(N_FRAMES, na, cell="ortho")
+        t = files.ident_traj(N_FRAMES, na, cell=None if fmt in ("dcd4", "mdcrd-nobox") else "ortho")
         path = os.path.join(_TMP, f"f_{fmt}.{ext}")
         t.save(path)
+        if fmt == "dcd0":
+            files.dcd_set_nset(path, 0)
+        elif fmt == "dcd4":
+            os.rename(path, path + ".3d")
+            files.dcd_make_4d(path + ".3d", path, na, N_FRAMES)
     with md.open(path, **files.open_kwargs(ext, na)) as fh:
         R = np.array(files.coords_of(ext, fh.read()))
     if fmt != "arc":
